@@ -120,6 +120,23 @@ CHECKS = {
          "point (load_pdx_file, load_file, load_directory, load_files) yields an equal database.",
     note="Trusted: vlib/models/dcdiff.py, pdxperturb.py (soundness rules for perturbed values), Hypothesis. Only classes present in the shipped examples are reached.",
     design="3/C11"),
+ "C12": dict(
+    technique="reference ISO 15765-2 segmenter as generator/oracle; exhaustive telegram lengths and merge orders; Hypothesis-drawn interleavings",
+    text="Bounded exploration: telegram sets segmented by an independent reference segmenter (single / first / consecutive frames, SN wrap, classic and "
+         "FD frame sizes incl. the FD single-frame escape, arbitrary padding), interleaved over up to 3 CAN ids with flow-control and foreign frames; "
+         "decode_rx_frame, read_telegrams on three candump renderings and IsoTpActiveDecoder (recording fake bus) must report exactly the "
+         "transmitted payloads per id in order, the text interface must agree, and every first frame is answered by one clear-to-send flow control. "
+         "Complete enumeration of merge orders for small frame counts and of lengths 1..260 (quick) / 1..4095 (thorough).",
+    note="Trusted: vlib/models/isotp.py (segmenter + renderers), Hypothesis. Socket path of read_telegrams, 32-bit FF length escape and extended addressing are out of scope.",
+    design="3/C12"),
+ "C13": dict(
+    technique="fault-operator histories (Hypothesis) + exhaustive single-fault sweep + sampled double faults against a justification acceptor; atheris campaign in thorough",
+    text="Bounded exploration / fault enumeration: well-formed streams x drop, duplicate, swap, truncate, corrupt-PCI, inject stray consecutive / flow-control / "
+         "empty / over-long frame, abandon transfer (every operator at every position for 5 base streams, sampled double faults, generated histories, "
+         "random frames; 4 x 200k atheris executions in thorough); processing never raises, every reported telegram is justified by the frame history "
+         "of its id under either admissible recovery policy, each first frame yields at most one telegram, and an undisturbed transfer is reported exactly once.",
+    note="Trusted: the Justifier acceptor in vlib/models/isotp.py (assumes a new well-formed first frame supersedes the transfer in progress), Hypothesis, atheris.",
+    design="3/C13"),
  "C14": dict(
     technique="reference matcher and simulated ECU driven as a history against VariantMatcher.request_loop/evaluate; enumerated catalogue of candidate lists x ECU functions",
     text="Bounded exploration: candidate lists of ECU/base variants built through XML (0..3 patterns, 1..3 matching parameters, shared and distinct "
@@ -145,7 +162,7 @@ CHECKS = {
     design="3/C16"),
 }
 
-NOT_YET = "check not built yet in this session (work in progress; see DESIGN.md section 6)"
+NOT_YET = "check not built yet"
 
 def main():
     checks = []
